@@ -302,7 +302,7 @@ func main() {
 			"reference = the parent's own behaviour on a twin instance (same tree, same user and umask, path = Join(dir, Clean(\"/\"+p))); defects that parent and view share are not flagged",
 			"\"..\" is clamped at the view's root (chroot semantics, as the statement's 'nothing outside dir is reachable' requires)",
 			"relative operands before the first successful Chdir through the view are judged only on 'nothing outside dir is read or changed'",
-			"after the view's root directory has been renamed or removed (through any actor) the property is silent: only no panic/deadlock and no change outside the directory that now holds the view's root node are required",
+			"after the view's root directory has been renamed or removed (through any actor) the property is silent: only no panic/deadlock and no change outside the directory that now holds the view's root node are required; in addition, once the root node is no longer reachable from the parent's root (removed, or below a removed directory) nothing new can be created through the view (a removed directory accepts no entry)",
 			"Remove/RemoveAll/Rename whose operand resolves to the view's own root act on dir's entry in dir's parent, i.e. outside dir; both the parent's behaviour and a root that refuses or is emptied and kept are accepted there: only no panic/deadlock and no change outside dir are required",
 			"signature field viewroot tells whether the acting (or observing) non-admin user has search permission on the view's root directory and on the directories above it, which the parent checks while walking the prefixed path and a view never does",
 			"FileInfo.Name() of the view's root is not compared (a root has no name inside its own namespace); mtimes and file ids are not compared",
